@@ -1,3 +1,5 @@
 //! Shared pieces of the correspondence harness.
 pub mod util;
 pub mod c11;
+pub mod codec;
+pub mod c09;
